@@ -120,6 +120,8 @@ def swapper_config(draw, tier, min_dims=3, max_dims=4, max_extent=8, max_procs=N
     ngroups = draw(st.integers(1, 3))
     for _ in range(ngroups):
         choices = ["p0", "p1", "p0l", "p1l", "2d"]
+        if p0 != p1:
+            choices.append("2dswap")       # a 2-D group listing the process counts in the other order
         if p0 == 1 or p1 == 1:
             choices.append("one")
         ch = draw(st.sampled_from(choices))
@@ -128,7 +130,7 @@ def swapper_config(draw, tier, min_dims=3, max_dims=4, max_extent=8, max_procs=N
         perms = []
         derived = draw(st.integers(0, 4)) > 0
         for _k in range(nl):
-            if ch == "2d":
+            if ch in ("2d", "2dswap"):
                 if not perms:
                     perms = draw(gen.connected_layout_set(ndims, 2, max_layouts=nl))
                 break
@@ -152,6 +154,8 @@ def swapper_config(draw, tier, min_dims=3, max_dims=4, max_extent=8, max_procs=N
             npg = [p1]
         elif ch == "2d":
             npg = [p0, p1]
+        elif ch == "2dswap":
+            npg = [p1, p0]
         else:
             npg = draw(st.sampled_from([1, [1]]))
         groups.append({"nprocs": npg, "layouts": perms})
